@@ -118,3 +118,15 @@ check('C14',
       'instance, not proved. Order books, scaled and structured assets are excluded from the comparison with the unsplit problem '
       '(their variables are duplicated per interval); coarse-frequency and periodic assets are not combined with splitting.',
       'Coq proof (direct sum) + per-instance certificates in Coq + implementation oracle', 'DESIGN.md 5 C14')
+check('C09',
+      'Theorems (any portfolio): under any renaming of assets, nodes (injective) and variable names the assembled problem (costs, '
+      'bounds, asset rows, nodal rows) is literally unchanged and the mapping is the relabelled mapping; dispatch and cash flows of '
+      'every asset / node / step are the old numbers under the new labels for every point x; swapping two blocks of a direct sum '
+      'keeps feasibility, value and optimality. On the implementation every generated portfolio (incl. scaled and structured assets, '
+      'order books, coarse / periodic assets) is rebuilt with adversarial names (numeric, digit-led, prefix- and suffix-related, with '
+      'blanks and punctuation) and with a permuted asset list: the problems must be identical / have the same per-asset blocks, the '
+      'optimum, the dispatch and cash-flow tables must agree under the relabelling; the implementation\'s renamed mapping is compared '
+      'in Coq with Rename.rename_map of its base mapping (the hypothesis of the equivariance theorems).',
+      TB + 'For a permuted asset list only value, status and per-asset blocks are compared (optimal dispatch need not be unique); the '
+      'general statement for permutations with nodal coupling is checked per instance, the theorem covers block swaps of direct sums.',
+      'Coq proof (equivariance) + differential correspondence + metamorphic implementation oracle', 'DESIGN.md 5 C09')
